@@ -143,3 +143,12 @@ package reconciling
 //@ ensures result.dateUseDashes.isExplicit && result.dateUseDashes.value == r.(*klog.record).date.(*klog.date).format.UseDashes
 //@ loop 1 invariant fresh(s)
 //@ loop 2 invariant fresh(s) && !s.indentation.isExplicit && s.indentation.value == "    " && forall(k, 0, rangeindex+1, !indented(b.(*txt.block).lines[k]))
+
+// tallyUp: the winner of an election is determined by the votes alone (the output of a command is a function of the
+// file): stated for the election over placeholder lengths, whose keys are integers — every other value that received
+// votes has strictly fewer votes than the winner.
+//@ func (*election[int]).tallyUp
+//@ requires nonnil(e.votes)
+//@ ensures forall(k, -4611686018427387904, 4611686018427387904, implies(haskey(e.votes, k) && e.votes[k] > 0 && k != result, e.votes[k] < e.votes[result]))
+//@ loop 1 invariant max >= 0 && forall(k, -4611686018427387904, 4611686018427387904, implies(visited(k), haskey(e.votes, k) && e.votes[k] <= max))
+//@ loop 1 invariant implies(max > 0, visited(result) && e.votes[result] == max)
